@@ -125,6 +125,7 @@ func init() {
 	indirectHarness["ZZ_C11_proc"] = Indirect{"ZZ_C11_proc", "multiproc"}
 	indirectHarness["ZZ_C13_ro"] = Indirect{"ZZ_C13_race", "race"}
 	indirectHarness["ZZ_C13_will"] = Indirect{"ZZ_C13_will_race", "race"}
+	indirectHarness["ZZ_C13_willmod"] = Indirect{"ZZ_C13_willmod_race", "race"}
 	indirectHarness["ZZ_C13_read"] = Indirect{"ZZ_C13_read_race", "race"}
 }
 
@@ -164,6 +165,9 @@ func jobsFor(prop, tier string) []*Job {
 				add("rt/"+tn(t), "ZZ_C01_rt", []string{"rt"}, sh.Args()...)
 			}
 		}
+		for _, wm := range []int{0, 1, 63} {
+			add("rewill", "ZZ_C01_rewill", []string{"rt"}, Sh{Typ: 1, Slen: 1, Will: 1 | wm<<1, Nz: 1}.Args()...)
+		}
 	case "C02":
 		for t := 1; t <= 15; t++ {
 			for _, sh := range apiShapes(t, thorough, true) {
@@ -197,6 +201,29 @@ func jobsFor(prop, tier string) []*Job {
 		}
 		for m := 0; m <= nmax(0, 6, 8); m++ {
 			add("rp", "ZZ_C04_rp", []string{"rp"}, m)
+		}
+		// a second decode into a packet value that already decoded a full frame
+		for t := 1; t <= 15; t++ {
+			if t == 12 || t == 13 {
+				continue
+			}
+			sh := Sh{Typ: t, Slen: 2, Nz: 2, NUser: 1, Mask: 1<<uint(nProps(t)) - 1}
+			if hasList(t) {
+				sh.NList = 1
+			}
+			if t == 1 {
+				sh.Will, sh.Cred = 1|(1<<6-1)<<1, 3
+			}
+			if t == 3 {
+				sh.Qos = 1
+			}
+			top := umMax(t) - 2
+			if top > 6 {
+				top = 6
+			}
+			for n := 0; n <= top; n++ {
+				add("reuse/"+tn(t), "ZZ_C04_reuse", []string{"reuse"}, append([]int{n}, sh.Args()...)...)
+			}
 		}
 		// prefixes and field-level damage of valid frames: T-mode
 		for t := 1; t <= 15; t++ {
@@ -523,6 +550,9 @@ func jobsFor(prop, tier string) []*Job {
 		}
 		for _, wm := range []int{0, 1, 63} {
 			add("will", "ZZ_C13_will", []string{"will"}, Sh{Typ: 1, Slen: 1, NUser: 1, Will: 1 | wm<<1, Nz: 1}.Args()...)
+		}
+		for mode := 1; mode <= 4; mode++ {
+			add("willmod", "ZZ_C13_willmod", []string{"willmod"}, append([]int{mode}, Sh{Typ: 1, Slen: 1, NUser: 1, Will: 1 | 63<<1, Nz: 1}.Args()...)...)
 		}
 	case "C14":
 		for t := 0; t <= 15; t++ {
